@@ -111,10 +111,9 @@ package db
 
 // ---- release of reserved numbers when a write fails ----
 
-//@ fn isTimeoutErr(e error) bool
-//@ extern func github.com/couchbase/sync_gateway/base.IsTimeoutError
-//@   inert
-//@   ensures result == isTimeoutErr(err)
+// isTimeoutErr(e): what base.IsTimeoutError answers (verified contract in base/zz_verif_c07.go)
+//@ pred isTimeoutErr(e error) bool
+//@   is !isNilErr(e) && (errIs(e, box(gocb.ErrTimeout)) || errIs(e, box(base.ErrTimeout)))
 
 //@ func sequenceAllocator.releaseSequence
 //@   requires s != nil
@@ -139,6 +138,15 @@ package db
 // is the one getAttachmentIDsForLeafRevisions computed after the write without error
 //@   before[not-referenced]      call Delete#1 !($2 in leafAttachments)
 //@   before[post-write-leaf-set] call Delete#1 called(getAttachmentIDsForLeafRevisions, 1) && isNilErr(callres(getAttachmentIDsForLeafRevisions, 1, 1)) && leafAttachments == callres(getAttachmentIDsForLeafRevisions, 1, 0)
+// (C04) the external bodies of revisions that left the tree / were promoted are deleted only after the document that no
+// longer references them has been stored: the clean-up runs here, after a successful WriteUpdateWithXattrs, never earlier
+//@   also C04: cleanup-after-commit
+//@   before[cleanup-after-commit] call deleteRemovedRevisionBodies#1 called(WriteUpdateWithXattrs, 1) && isNilErr(callres(WriteUpdateWithXattrs, 1, 1))
+// (C02) the channel set cached with the freshly written revision is exactly that revision's channel set
+//@   also C02: cached-rev-is-new, cached-channels-of-rev, cached-channels-of-rev-upsert
+//@   before[cached-rev-is-new]             call channelsForRevTreeID#1 $1 == newRevID
+//@   before[cached-channels-of-rev]        call Put#1 $2.Channels == callres(channelsForRevTreeID, 1, 0)
+//@   before[cached-channels-of-rev-upsert] call Upsert#1 $2.Channels == callres(channelsForRevTreeID, 1, 0)
 //@   ensures[release-doc-seq] called(WriteUpdateWithXattrs, 1) && !isNilErr(callres(WriteUpdateWithXattrs, 1, 1)) && !isTimeoutErr(callres(WriteUpdateWithXattrs, 1, 1)) && docSequence > 0 ==> (docSequence in releaseAttempted)
 //@   ensures[release-unused]  called(WriteUpdateWithXattrs, 1) && !isNilErr(callres(WriteUpdateWithXattrs, 1, 1)) && !isTimeoutErr(callres(WriteUpdateWithXattrs, 1, 1)) ==> (forall k int :: {unusedSequences[k]} 0 <= k && k < len(unusedSequences) ==> (unusedSequences[k] in releaseAttempted))
 //@   ensures[surfaces]        called(WriteUpdateWithXattrs, 1) && !isNilErr(callres(WriteUpdateWithXattrs, 1, 1)) && callres(WriteUpdateWithXattrs, 1, 1) != box(base.ErrUpdateCancel) ==> !isNilErr(err)
